@@ -69,6 +69,7 @@ type env struct {
 	esc     func(string) string
 	log     *[]string
 	blockDepth int // > 0 while a block body or a yielded content runs (per executed template)
+	cur        Stmt // statement being executed (failure position)
 	rangeDepth int // number of range bodies currently running (per executed template)
 	retCount   int // number of return statements executed so far
 	mapPerm int // which permutation of 2-entry maps to use
@@ -189,6 +190,9 @@ func evalPerm(p *Program, perm int) (res permResult) {
 func (e *env) quirk(name string) bool { return e.p.Quirks[name] }
 
 func (e *env) fail(class string, at interface{}) {
+	if at == nil {
+		at = e.cur
+	}
 	panic(&RefError{Class: class, At: at, File: e.file, Val: nil})
 }
 
@@ -444,10 +448,13 @@ func (e *env) doAssign(a *Assign) {
 }
 
 func (e *env) stmt(s Stmt) {
+	e.cur = s
 	switch s := s.(type) {
 	case *Text:
 		e.out.WriteString(s.S)
 	case *Comment:
+	case *FailStmt:
+		e.fail(s.Class, s)
 	case *Emit:
 		e.emit(s)
 	case *Assign:
